@@ -123,7 +123,7 @@ type env struct {
 // standard codes a handler may return; the caller must get the same one (rpc/status.go maps them back to constants)
 var stdCodes = []status.Code{status.CodeTest, status.CodeError, status.CodeExternalError, status.CodeNotFound, status.CodeForbidden,
 	status.CodeUnauthorized, status.CodeRollback, status.CodeRedirect, status.CodeUnavailable, status.CodeUnsupported,
-	status.CodeParseError, status.CodeChecksumError, status.CodeConcurrencyError, status.CodeWait}
+	status.CodeParseError, status.CodeChecksumError, status.CodeConcurrencyError, status.CodeWait, status.CodeCancelled, status.CodeClosed}
 
 func (e *env) handle(ctx rpc.Context, ch rpc.ServerChannel) (ref.R[[]byte], status.Status) {
 	req, st := ch.Request(ctx)
